@@ -67,15 +67,55 @@ func compileToGetCodeSetSlowPath(typeptr uintptr) (*OpcodeSet, error) {
 	return codeSet, nil
 }
 
-func getFilteredCodeSetIfNeeded(ctx *RuntimeContext, codeSet *OpcodeSet) (*OpcodeSet, error) {
+// CompileToGetCodeSet returns the program for the type, restricted by the field query of the context if there is one.
+func CompileToGetCodeSet(ctx *RuntimeContext, typeptr uintptr) (*OpcodeSet, error) {
+	codeSet, err := compileToGetCodeSet(typeptr)
+	if err != nil {
+		return nil, err
+	}
 	if (ctx.Option.Flag & ContextOption) == 0 {
+		verifProgram(typeptr, codeSet)
 		return codeSet, nil
 	}
 	query := FieldQueryFromContext(ctx.Option.Context)
 	if query == nil {
+		verifProgram(typeptr, codeSet)
 		return codeSet, nil
 	}
 	ctx.Option.Flag |= FieldQueryOption
+	filtered, err := getFilteredCodeSet(codeSet, query)
+	if err != nil {
+		return nil, err
+	}
+	verifProgram(typeptr, filtered)
+	return filtered, nil
+}
+
+// CompileToGetCodeSetOfInterface returns the program for the value held by an interface.
+// While a field query is in effect the value is restricted by the sub query that selected
+// the interface ( code.FieldQuery ), never by the query of the whole document.
+func CompileToGetCodeSetOfInterface(ctx *RuntimeContext, code *Opcode, typeptr uintptr) (*OpcodeSet, error) {
+	if (ctx.Option.Flag & FieldQueryOption) == 0 {
+		return CompileToGetCodeSet(ctx, typeptr)
+	}
+	codeSet, err := compileToGetCodeSet(typeptr)
+	if err != nil {
+		return nil, err
+	}
+	if code.FieldQuery == nil {
+		// selected as a whole
+		verifProgram(typeptr, codeSet)
+		return codeSet, nil
+	}
+	filtered, err := getFilteredCodeSet(codeSet, code.FieldQuery)
+	if err != nil {
+		return nil, err
+	}
+	verifProgram(typeptr, filtered)
+	return filtered, nil
+}
+
+func getFilteredCodeSet(codeSet *OpcodeSet, query *FieldQuery) (*OpcodeSet, error) {
 	cacheCodeSet := codeSet.getQueryCache(query.Hash())
 	if cacheCodeSet != nil {
 		return cacheCodeSet, nil
